@@ -129,8 +129,8 @@ def rule_submodule_contract(ctx, rep: Report, rid="Y2"):
     fo = Folder(prog, ci.mod, wf, ci)
     tpls = {}
     for c in walk_no_nested(wf):
-        if isinstance(c, ast.Call) and isinstance(c.func, ast.Attribute) and c.func.attr == "format" \
-                and isinstance(c.func.value, ast.Constant):
+        if (isinstance(c, ast.Call) and isinstance(c.func, ast.Attribute) and c.func.attr == "format"
+                and isinstance(c.func.value, ast.Constant)) or isinstance(c, ast.JoinedStr):
             t = fo.fold(c)
             if t is not None:
                 tpls[t.literal("@")] = (t, c)
@@ -161,7 +161,8 @@ def rule_submodule_contract(ctx, rep: Report, rid="Y2"):
         dt, dc = tpls[decl[0]]
         ct, cc = tpls[call[0]]
         rep.add(rid, "main file:declaration and call of an initialiser use the same name",
-                unparse(dc.args[0]) == unparse(cc.args[0]), f"{unparse(dc.args[0])} vs {unparse(cc.args[0])}", loc)
+                bool(dt.slots()) and bool(ct.slots()) and unparse(dt.slots()[0].val) == unparse(ct.slots()[0].val),
+                f"{unparse(dt.slots()[0].val) if dt.slots() else None} vs {unparse(ct.slots()[0].val) if ct.slots() else None}", loc)
     else:
         rep.add(rid, "initialiser:declared, defined and called with one signature and one module variable", False, detail, loc)
     # definition only when wrapped as a submodule; PYBIND11_MODULE otherwise
